@@ -135,6 +135,77 @@ fn lunar_year(y: i64, log: &mut Log) {
   }
 }
 
+/// one history operation on civil day n: a drawn route to the pillar or the weekday
+fn history_op(n: i64, rng: &mut crate::util::Rng) -> (String, Vec<String>, u64) {
+  use crate::model::ganzhi::pillar_name;
+  let name = cal::fmt_dn(n);
+  if cal::reform_era_day(n) {
+    return (format!("skip({})", name), vec![], 0);
+  }
+  let (wp, ww) = (cal::day_pillar(n), cal::weekday(n));
+  let sd = sd_of_dn(n);
+  let mut bad = vec![];
+  let label;
+  match rng.below(6) {
+    0 => {
+      label = format!("lunar-route({})", name);
+      let l = sd.get_lunar_day();
+      let got = (l.get_sixty_cycle().get_index() as i64, l.get_week().get_index() as i64);
+      if got != (wp, ww) {
+        bad.push(format!("pillar {} weekday {} (expected {} / {})", pillar_name(got.0), got.1, pillar_name(wp), ww));
+      }
+    }
+    1 => {
+      label = format!("sixty-route({})", name);
+      let d = sd.get_sixty_cycle_day();
+      let got = (d.get_sixty_cycle().get_index() as i64, dn_of(&d.get_solar_day()));
+      if got != (wp, Some(n)) {
+        bad.push(format!("pillar {} on {:?} (expected {} on {})", pillar_name(got.0), got.1.map(cal::fmt_dn), pillar_name(wp), name));
+      }
+    }
+    2 => {
+      label = format!("weekday({})", name);
+      let got = (sd.get_week().get_index() as i64, sd.get_julian_day().get_week().get_index() as i64);
+      if got != (ww, ww) {
+        bad.push(format!("weekday {:?} (expected {})", got, ww));
+      }
+    }
+    3 | 4 => {
+      // from the lunar side: the label the enumeration gives this civil day, built by label
+      let seq = lunar_seq();
+      let k = seq.months.partition_point(|lm| lm.first <= n);
+      if k == 0 {
+        return (format!("skip({})", name), vec![], 0);
+      }
+      let lm = seq.months[k - 1];
+      if n >= lm.first + lm.days {
+        return (format!("skip({})", name), vec![], 0);
+      }
+      let d = n - lm.first + 1;
+      label = format!("from-label({}-{:02})", fmt_lym(lm.y, lm.m), d);
+      let l = LunarDay::from_ymd(lm.y as isize, lm.m as isize, d as usize);
+      let got = (l.get_sixty_cycle().get_index() as i64, l.get_sixty_cycle_day().get_sixty_cycle().get_index() as i64, l.get_week().get_index() as i64, dn_of(&l.get_solar_day()));
+      if got != (wp, wp, ww, Some(n)) {
+        bad.push(format!("pillar {} / view {} weekday {} civil {:?} (expected {} weekday {} civil {})", pillar_name(got.0), pillar_name(got.1), got.2, got.3.map(cal::fmt_dn), pillar_name(wp), ww, name));
+      }
+    }
+    _ => {
+      label = format!("yesterday+1({})", name);
+      if n > cal::FIRST && !cal::reform_era_day(n - 1) {
+        use tyme4rs::tyme::Tyme;
+        let y = sd_of_dn(n - 1).get_lunar_day();
+        let _ = y.get_sixty_cycle_day();
+        let t = y.next(1);
+        let got = (t.get_sixty_cycle().get_index() as i64, t.get_sixty_cycle_day().get_sixty_cycle().get_index() as i64);
+        if got != (wp, wp) {
+          bad.push(format!("pillar {} / view {} (expected {})", pillar_name(got.0), pillar_name(got.1), pillar_name(wp)));
+        }
+      }
+    }
+  }
+  (label, bad, 1)
+}
+
 pub fn run(cfg: &Cfg) -> (Log, Meta) {
   crate::util::set_thread_cap(8);
   let mut log = Log::new();
@@ -158,7 +229,9 @@ pub fn run(cfg: &Cfg) -> (Log, Meta) {
     Tier::Quick => (0..=9999).filter(|y| y % 50 == (cfg.seed % 50) as i64 || *y < 30).collect(),
   };
   log.merge(par_range(lunar_years.len(), 4, |i, l| lunar_year(lunar_years[i], l)));
-  let _ = LAST;
+  let nh = cfg.tier.pick(30_000usize, 500_000usize);
+  log.merge(par_range(nh, 100, |i, l| crate::history::day_walk("C07", "a sequence of pillar / weekday look-ups on related days on one thread", i, cfg.seed, cal::FIRST + 6, LAST - 1, l, history_op)));
+  log.floor("history.answers_judged", cfg.tier.pick(250_000, 4_000_000));
   log.floor("day.month_start_adjacencies", 119_000);
   log.floor("day.year_start_adjacencies", 9_999);
   log.floor("day.cutover_adjacency_1582", 2);
@@ -168,12 +241,14 @@ pub fn run(cfg: &Cfg) -> (Log, Meta) {
   log.floor("lunar.days_from_the_lunar_side", cfg.tier.pick(50_000, 3_600_000));
   let meta = Meta {
     rule: format!(
-      "exhaustive over all 3,652,061 civil dates for the lunar-date route to the pillar and the three weekday routes (SolarDay, JulianDay, LunarDay), each compared with (N+49) mod 60 and (N+1) mod 7 on the harness day number N; the sexagenary-day route on {} (on the same days, every 4th of them in quick, also: a lunar date with filled memos stepped by +1, -1, +3, +29, -30 days must carry the pillar of the target day by every route); every lunar (year, month, day) of {} lunar years from the lunar side. Non-trivial = adjacencies across month starts (counted; year starts, the 1582 cut-over and lunar month boundaries are counted separately).",
+      "exhaustive over all 3,652,061 civil dates for the lunar-date route to the pillar and the three weekday routes (SolarDay, JulianDay, LunarDay), each compared with (N+49) mod 60 and (N+1) mod 7 on the harness day number N; the sexagenary-day route on {} (on the same days, every 4th of them in quick, also: a lunar date with filled memos stepped by +1, -1, +3, +29, -30 days must carry the pillar of the target day by every route); every lunar (year, month, day) of {} lunar years from the lunar side; histories: {} seeded single-thread sequences of 6..16 look-ups (lunar route, sexagenary-day route, weekday routes, the day built from its lunar label, yesterday's warm lunar date stepped by one) - {}. Non-trivial = adjacencies across month starts (counted; year starts, the 1582 cut-over and lunar month boundaries are counted separately).",
       match cfg.tier {
         Tier::Thorough => "every civil date".to_string(),
         Tier::Quick => format!("every date of {} sampled years", sample.len()),
       },
-      lunar_years.len()
+      lunar_years.len(),
+      nh,
+      crate::history::WALK_TEXT
     ),
     assumptions: vec!["anchors: 2000-01-01 = JDN 2451545 = Wuwu day, Saturday; 1949-10-01 = Jiazi day (checked in the oracle self-test)".into()],
     exhaustive: cfg.tier == Tier::Thorough,
